@@ -192,3 +192,35 @@ def str_elems(node):
 def dotted_text(expr):
     d = dotted(expr)
     return '.'.join(d) if d else None
+
+
+def raised_class_exprs(func_node, raise_node):
+    """Expressions naming the class(es) a `raise X` statement raises: the
+    called class of `raise C(...)`, `C` itself, or - for `raise name` where
+    `name` is a local bound to exception objects built in the same function
+    (`err = KeyError(key)` ... `raise err`) - the classes of those calls."""
+    e = raise_node.exc
+    if e is None:
+        return []
+    if isinstance(e, ast.Call):
+        return [e.func]
+    if isinstance(e, ast.Name):
+        built = []
+        other = False
+        for n in walk_no_nested(func_node):
+            if isinstance(n, ast.Assign) and any(
+                    isinstance(t, ast.Name) and t.id == e.id
+                    for t in n.targets):
+                if isinstance(n.value, ast.Call):
+                    built.append(n.value.func)
+                else:
+                    other = True
+            elif isinstance(n, (ast.AnnAssign, ast.AugAssign, ast.NamedExpr)) \
+                    and isinstance(n.target, ast.Name) and \
+                    n.target.id == e.id:
+                other = True
+            elif isinstance(n, ast.ExceptHandler) and n.name == e.id:
+                other = True
+        if built and not other:
+            return built
+    return [e]
